@@ -223,6 +223,10 @@ func dialLegacyOut(addr, connID, extraHeaders string) (net.Conn, *bufio.Reader, 
 	return out, br, nil
 }
 
+// legacyDrainWait is how long a client waits, after the byte meant for the IN handler's Drain,
+// before it sends packets (Drain discards everything its single read returns).
+var legacyDrainWait = 4 * time.Millisecond
+
 func dialLegacyIn(addr, connID, extraHeaders string) (net.Conn, *bufio.Reader, error) {
 	in, err := net.DialTimeout("tcp", addr, 3*time.Second)
 	if err != nil {
@@ -240,7 +244,7 @@ func dialLegacyIn(addr, connID, extraHeaders string) (net.Conn, *bufio.Reader, e
 	in.SetReadDeadline(time.Time{})
 	// the IN handler discards the first TCP read (Drain): give it one byte of its own
 	in.Write([]byte{0})
-	time.Sleep(4 * time.Millisecond)
+	time.Sleep(legacyDrainWait)
 	return in, br, nil
 }
 
